@@ -44,30 +44,49 @@ def showPairs (v : List (Path × Blob)) : String :=
 structure St where
   repo : Repo
   idx : Index
+  igp : Path                       -- path id of `.sourcegraph/ignore`
+  tbl : List (Blob × List Path)    -- ignore-file blob ↦ the paths it excludes (computed by the real matcher)
 
-def St.init : St := ⟨[], Index.empty⟩
+def St.init (igp : Path) : St := ⟨[], Index.empty, igp, []⟩
+
+/-- the ignore matcher of a tree: looked up by the blob of its ignore file; no file, no exclusions -/
+def St.ignore (st : St) : Ignore :=
+  ⟨st.igp, fun t p =>
+    match fget t st.igp with
+    | some e => ((st.tbl.lookup e.blob).getD []).contains p
+    | none => false⟩
 
 /--
 ops (one history per `reset`):
-  reset
+  reset <ignore path id>
+  igdef <blob> <paths>               the ignore file with this blob excludes these paths
   commit <b> <tree>
-  index <delta 0|1> <thr> <brs>      impl/model: `delta|full files=… changed=… shards=<n>`
+  index <delta 0|1> <thr> <brs> [ns] impl/model: `delta|full files=… changed=… shards=<n>`
   view <b>                           impl: (path:blob) pairs the real branch-restricted search returned;
                                      model: its own view; verdict: `checkView` of the implementation's view
 -/
 def stepLine (st : St) (line : String) : St × String :=
   let (inp, impl) := splitCase line
   match fields inp with
-  | ["reset"] => (St.init, answer "ok")
+  | ["reset", igp] =>
+    match igp.toNat? with
+    | some igp => (St.init igp, answer "ok")
+    | none => (st, badCase "reset fields")
+  | ["igdef", x, ps] =>
+    match x.toNat?, natList? ps with
+    | some x, some ps => ({ st with tbl := (x, ps) :: st.tbl }, answer "ok")
+    | _, _ => (st, badCase "igdef fields")
   | ["commit", b, t] =>
     match b.toNat?, parseTree t with
-    | some b, some t => (⟨(b, t) :: st.repo, st.idx⟩, answer "ok")
+    | some b, some t => ({ st with repo := (b, t) :: st.repo }, answer "ok")
     | _, _ => (st, badCase "commit fields")
   | "index" :: d :: thr :: brs :: rest =>
     match bool? d, thr.toNat?, natList? brs with
     | some d, some thr, some brs =>
-      let isDelta := d && deltaOk st.idx thr brs && !mixedChange diffTrees st.idx.snap st.repo st.idx.brs
-      let idx' := indexRun diffTrees st.idx st.repo d thr brs
+      let I := st.ignore
+      let isDelta := d && deltaOk st.idx thr brs && !mixedChange diffTrees st.idx.snap st.repo st.idx.brs &&
+        !ignoreBlocksDelta I diffTrees st.idx.snap st.repo st.idx.brs
+      let idx' := indexRun I diffTrees st.idx st.repo d thr brs
       -- `ns`: the run used a small ShardMax, so the number of shards is not the model's
       let nsh := if rest == ["ns"] then "*" else toString idx'.shards.length
       let out :=
@@ -75,16 +94,17 @@ def stepLine (st : St) (line : String) : St × String :=
           let res := prepareDelta diffTrees st.idx.snap st.repo st.idx.brs
           s!"delta files={showFiles res.1} changed={showNatList (natSet res.2)} shards={nsh}"
         else
-          s!"full files={showFiles (collect st.repo brs)} changed=- shards={nsh}"
-      (⟨st.repo, idx'⟩, answer out)
+          s!"full files={showFiles (collect I st.repo brs)} changed=- shards={nsh}"
+      ({ st with idx := idx' }, answer out)
     | _, _, _ => (st, badCase "index fields")
   | ["view", b] =>
     match b.toNat?, parsePairs impl with
     | some b, some iv =>
       let mv := showPairs (st.idx.view b)
-      if checkView (head st.repo b) iv then (st, answer mv) else (st, specFail mv "view-ne-head")
+      let t := head st.repo b
+      if checkView t (st.ignore.ig t) iv then (st, answer mv) else (st, specFail mv "view-ne-head")
     | _, _ => (st, badCase "view fields")
   | _ => (st, badCase "op")
 
-def main : IO Unit := runState St.init stepLine
+def main : IO Unit := runState (St.init 0) stepLine
 end ZoektModel.C13
